@@ -31,6 +31,7 @@ def check(ctx, report):
     speccheck.run(ctx, report, 'C08', 'dns.json', MODULES, reviewed)
     key_tag(ctx, report)
     key_material(ctx, report)
+    rsa_exponent_length(ctx, report)
     report.floor('C08.R1', 12, 'layout comparisons')
 
 
@@ -223,3 +224,48 @@ def key_material(ctx, report):
             if got != want['key_bytes']:
                 report.add('C08.R4', fd.construct + '@size[%s]' % alg, '%s public key is read with %s bytes; %s' % (alg, got, want['ref']))
         report.sample({'rule': 'C08.R4', 'algorithm': alg, 'ref': want['ref'], 'code': groups.get(alg) or sizes.get(alg)})
+
+
+def rsa_exponent_length(ctx, report):
+    """RFC 3110 section 2: the exponent length is one octet for 1..255 and 0x00 + two octets for longer exponents.
+    DnsRecordDnskey._compose_public_key_rsa is evaluated (sa.miniexec) with a recording composer for exponent lengths on
+    both sides of the boundary and compared with that rule; the parser side is the layout comparison of R1."""
+    from ..miniexec import Evaluator, Obj, Raised, Unsupported
+    rule = 'C08.R5'
+    report.rule(rule, 'RSA public key: exponent length form (one octet up to 255, three octets above), exponent and modulus widths')
+    c = ctx.model.cls('DnsRecordDnskey')
+    f = c.methods.get('_compose_public_key_rsa')
+    if f is None:
+        report.error('%s: DnsRecordDnskey._compose_public_key_rsa vanished' % rule)
+        return
+    report.touch(f)
+
+    class Composer(Native):
+        def __init__(self):
+            self.calls = []
+
+        def compose_numeric(self, value, size):
+            self.calls.append(('u', value, size))
+
+        def compose_mpint(self, value, length):
+            self.calls.append(('mpint', value, length))
+
+        def compose_raw(self, value):
+            self.calls.append(('raw', bytes(value)))
+    params = [a.arg for a in f.node.args.args if a.arg not in ('self', 'cls')]
+    try:
+        for length in (1, 3, 4, 127, 254, 255, 256, 257, 300, 1000):
+            report.count(rule)
+            exponent = 1 << (8 * length - 1)
+            modulus = (1 << 2047) + 1
+            key = Obj(params=Obj(public_exponent=exponent, modulus=modulus), key_size=2048)
+            comp = Composer()
+            Evaluator(dict(zip(params, [comp, key])), None, None).function(f.node)
+            prefix = [('u', length, 1)] if length <= 255 else [('u', 0, 1), ('u', length, 2)]
+            want = prefix + [('mpint', exponent, length), ('mpint', modulus, 256)]
+            if comp.calls != want:
+                report.add(rule, '%s@exponent-length[%s]' % (f.construct, 'one-octet' if length <= 255 else 'three-octet'),
+                           'an exponent of %d octets is written as %s, RFC 3110 2 says %s' % (
+                               length, [c[:1] + c[2:] if c[0] == 'mpint' else c for c in comp.calls][:4], [c[:1] + c[2:] if c[0] == 'mpint' else c for c in want]))
+    except (Unsupported, Raised) as e:
+        report.add(rule, f.construct + '@tabulation', 'the RSA key composer left the subset the tabulation understands: %s' % e)
